@@ -160,4 +160,169 @@ theorem variable_sound {reg : Reg} (hreg : RegOK reg) :
       | named n => exact (coerceCore_sound hreg ih hwf rfl (by simpa [stripNN] using h)).1
       | list t => exact (coerceCore_sound hreg ih hwf rfl (by simpa [stripNN] using h)).1
 
+/-! ### soundness of the literal route (`value_from_ast`) -/
+
+private theorem parseLiteral_sound {reg : Reg} {n : String} {k : NamedT} (hk : reg.get? n = some k)
+    (hne : ∀ vs, k ≠ .enum vs) (hni : ∀ fs, k ≠ .input fs) {l : Lit} {pv : PV}
+    (h : parseLiteral k l = .ok pv) : Conforms reg (.named n) pv ∧ pv.isNone = false := by
+  cases k with
+  | enum vs => exact absurd rfl (hne vs)
+  | input fs => exact absurd rfl (hni fs)
+  | custom =>
+    cases l <;> simp [parseLiteral] at h <;> subst h <;> exact ⟨.custom hk, rfl⟩
+  | int =>
+    cases l <;> simp only [parseLiteral] at h <;> split at h <;> try cases h
+    obtain ⟨rfl, hr⟩ := rangeChecked_ok h; exact ⟨.int hk hr, rfl⟩
+  | float =>
+    cases l <;> simp only [parseLiteral] at h <;> split at h <;> try cases h
+    all_goals exact ⟨.float hk, rfl⟩
+  | string =>
+    cases l <;> simp only [parseLiteral] at h <;> split at h <;> try cases h
+    all_goals exact ⟨.string hk, rfl⟩
+  | boolean =>
+    cases l <;> simp only [parseLiteral] at h <;> split at h <;> try cases h
+    all_goals exact ⟨.boolean hk, rfl⟩
+  | id =>
+    cases l <;> simp only [parseLiteral] at h <;> split at h <;> try cases h
+    all_goals exact ⟨.id hk, rfl⟩
+
+private theorem extractVariable_sound {reg : Reg} {vars : Option (List (String × PV))} {ty : Ty} {x : String} {pv : PV}
+    (hwf : ty.wf = true) (hfit : VarsFit reg vars ty (.var x)) (h : extractVariable vars ty x = .ok pv) :
+    Conforms reg ty pv := by
+  unfold extractVariable at h
+  split at h
+  · cases h
+  · rename_i vs
+    split at h
+    · cases h
+    · rename_i v hv
+      split at h
+      · cases h
+      · rename_i hc
+        cases h
+        cases hfit with
+        | leaf hl => simp [Lit.isLeaf] at hl
+        | var hvar =>
+          cases hnone : pv.isNone with
+          | true =>
+            cases pv <;> simp [PV.isNone] at hnone
+            cases ty with
+            | nonNull t => simp [Ty.isNonNull, PV.isNone] at hc
+            | named n => exact .null rfl
+            | list t => exact .null rfl
+          | false =>
+            have hc' := hvar vs pv rfl hv hnone
+            cases ty with
+            | nonNull t => exact .nonNull hnone (by simpa [stripNN] using hc')
+            | named n => simpa [stripNN] using hc'
+            | list t => simpa [stripNN] using hc'
+
+/-- `value_from_ast` body -/
+private theorem vfaCore_sound {reg : Reg} (hreg : RegOK reg) {vars : Option (List (String × PV))} {rec : Ty → Lit → R}
+    (hrec : ∀ ty l pv, ty.wf = true → VarsFit reg vars ty l → rec ty l = .ok pv → Conforms reg ty pv)
+    {ty t : Ty} {l : Lit} {pv : PV} (hst : stripNN ty = t) (hwf : t.wf = true) (hnn : t.isNonNull = false)
+    (hfit : VarsFit reg vars ty l) (hl : ∀ x, l ≠ .var x)
+    (h : vfaCore reg rec t l = .ok pv) :
+    Conforms reg t pv ∧ (l.isNull = false → pv.isNone = false) := by
+  unfold vfaCore at h
+  split at h
+  · rename_i hnull
+    cases h
+    exact ⟨.null hnn, fun h' => by simp [hnull] at h'⟩
+  · rename_i hnull
+    cases t with
+    | nonNull t' => simp [Ty.isNonNull] at hnn
+    | list t' =>
+      simp only at h
+      split at h
+      · rename_i items
+        split at h
+        · cases h
+        · rename_i r hr
+          cases h
+          refine ⟨.list ?_, fun _ => rfl⟩
+          have hitems : ∀ i, i ∈ items → VarsFit reg vars t' i := by
+            cases hfit with
+            | leaf hlf => simp [Lit.isLeaf] at hlf
+            | listItems hs hi => rw [hst] at hs; cases hs; exact hi
+          exact mapE_ok_forall (P := fun y => Conforms reg t' y) hr
+            (fun x hx y hy => hrec t' x y (wf_list hwf) (hitems x hx) hy)
+      · rename_i hnl
+        split at h
+        · cases h
+        · rename_i x hx
+          cases h
+          refine ⟨.list ?_, fun _ => rfl⟩
+          intro y hy
+          simp at hy; subst hy
+          have hfit' : VarsFit reg vars t' l := by
+            cases hfit with
+            | leaf hlf => exact .leaf hlf
+            | var _ => exact absurd rfl (hl _)
+            | listItems hs hi => exact absurd rfl (hnl _)
+            | listSingle hs hi => rw [hst] at hs; cases hs; exact hi
+            | obj hs hk _ => rw [hst] at hs; cases hs
+          exact hrec t' _ _ (wf_list hwf) hfit' hx
+    | named n =>
+      simp only at h
+      split at h
+      · rename_i fs hk
+        split at h
+        · rename_i lkvs
+          unfold extractInputObject at h
+          split at h
+          · split at h
+            · cases h
+            · rename_i r hr
+              cases h
+              refine ⟨.input hk ?_, fun _ => rfl⟩
+              have hfields : ∀ f, f ∈ fs → ∀ l, lookupLast f.name lkvs = some l → VarsFit reg vars f.type l := by
+                cases hfit with
+                | leaf hlf => simp [Lit.isLeaf] at hlf
+                | listSingle hs _ => rw [hst] at hs; cases hs
+                | obj hs hk' hf => rw [hst] at hs; cases hs; rw [hk] at hk'; cases hk'; exact hf
+              exact fieldLoop_sound
+                (fun f hf v pv hget hpv => hrec f.type v pv (hreg.fieldWf n fs hk f hf) (hfields f hf v hget) hpv)
+                (fun f hf d hd => hreg.defaultsConform n fs hk f hf d hd) hr
+          · cases h
+        · cases h
+      · rename_i vs hk
+        split at h
+        · obtain ⟨p, hp, rfl, _⟩ := getValue_mem h
+          exact ⟨.enum hk hp, fun _ => hreg.enumNotNone n vs hk p hp⟩
+        · cases h
+      · rename_i k hni hne hk
+        split at h
+        · have := parseLiteral_sound hk (fun vs hv => hne vs hv) (fun fs hv => hni fs hv) h
+          exact ⟨this.1, fun _ => this.2⟩
+        · cases h
+      · cases h
+
+/-- **literal_sound.** Whatever `value_from_ast` accepts conforms to the declared type, for literals of any
+    nesting, including variables inside list and object literals whose (already coerced) values fit their
+    positions (`VarsFit`). -/
+theorem literal_sound {reg : Reg} (hreg : RegOK reg) (vars : Option (List (String × PV))) :
+    ∀ (fuel : Nat) (ty : Ty) (l : Lit) (pv : PV), ty.wf = true → VarsFit reg vars ty l →
+      valueFromAst reg vars fuel ty l = .ok pv → Conforms reg ty pv := by
+  intro fuel
+  induction fuel with
+  | zero => intro ty l pv _ _ h; simp [valueFromAst] at h
+  | succ fuel ih =>
+    intro ty l pv hwf hfit h
+    simp only [valueFromAst] at h
+    split at h
+    · exact extractVariable_sound hwf hfit h
+    · rename_i hnv
+      split at h
+      · cases h
+      · rename_i hc
+        cases ty with
+        | nonNull t =>
+          have ⟨hnn, hwf'⟩ := wf_nonNull hwf
+          have hv : l.isNull = false := by simpa [Ty.isNonNull] using hc
+          have := vfaCore_sound hreg ih (ty := .nonNull t) rfl hwf' hnn hfit (fun x hx => hnv x hx) (by simpa [stripNN] using h)
+          exact .nonNull (this.2 hv) this.1
+        | named n => exact (vfaCore_sound hreg ih (ty := .named n) rfl hwf rfl hfit (fun x hx => hnv x hx) (by simpa [stripNN] using h)).1
+        | list t => exact (vfaCore_sound hreg ih (ty := .list t) rfl hwf rfl hfit (fun x hx => hnv x hx) (by simpa [stripNN] using h)).1
+
 end PyGql.Props.C07
